@@ -520,8 +520,69 @@ fn m_gfb(t: &mut Tape, rng: &mut SimRng, out: &mut RunOut, nops: usize) {
         let b = r254[t.usize(r254.len())];
         let x = r127[t.usize(r127.len())];
         let y = r127[t.usize(r127.len())];
-        let op = t.usize(22);
+        let op = t.usize(26);
         match op {
+            22 => {
+                // GF(2^254) operations specific to the GLS254 formulas
+                let r = match t.usize(4) {
+                    0 => a.mul_sb(),
+                    1 => a.mul_b(),
+                    2 => a.div_z2(),
+                    _ => {
+                        // x^2 + x = a + u*Tr(a): which of the two solutions x, x+1 is returned is unspecified
+                        let x = a.qsolve();
+                        let lhs = x.square() + x;
+                        let rhs = if a.trace() != 0 { a + GFb254::U } else { a };
+                        let (mut c0, c1) = x.to_components();
+                        c0.set_bit(0, 0);
+                        let canon = GFb254::from_b127(c0, c1);
+                        out.ev(format_args!("GFb254 qsolve valid {:#x} canon {}", lhs.equals(rhs), hex(&canon.encode())));
+                        canon
+                    }
+                };
+                out.ev(format_args!("GFb254 xop -> {}", hex(&r.encode())));
+                let n = a.mul_selfphi();
+                out.ev(format_args!("GFb254 mul_selfphi -> {}", hex(&n.encode())));
+                r127.push(n);
+                r254.push(r);
+            }
+            23 => {
+                let r = match t.usize(4) {
+                    0 => x.mul_sb(),
+                    1 => x.mul_b(),
+                    2 => x.div_z(),
+                    _ => x.div_z2(),
+                };
+                out.ev(format_args!("GFb127 xop -> {}", hex(&r.encode())));
+                r127.push(r);
+            }
+            24 | 25 => {
+                // constant-time table lookups; out-of-range indices must give zeros (except _nocheck, in range only)
+                let tab: Vec<GFb254> = (0..32).map(|i| r254[i % r254.len()] + GFb254::from_b127(r127[i % r127.len()], GFb127::ONE)).collect();
+                let kind = t.usize(4);
+                let span: u32 = [16, 8, 4, 4][kind];
+                let j = if kind == 3 {
+                    t.usize(4) as u32
+                } else {
+                    match t.usize(7) {
+                        0 => 0u32,
+                        1 => span - 1,
+                        2 => span,
+                        3 => 0xFFFF_FFFF,
+                        4 => 0x8000_0000 | t.usize(span as usize) as u32,
+                        5 => span + t.usize(240) as u32,
+                        _ => t.usize(span as usize) as u32,
+                    }
+                };
+                let r: [GFb254; 2] = match kind {
+                    0 => GFb254::lookup16_x2((&tab[..32]).try_into().unwrap(), j),
+                    1 => GFb254::lookup8_x2((&tab[..16]).try_into().unwrap(), j),
+                    2 => GFb254::lookup4_x2((&tab[..8]).try_into().unwrap(), j),
+                    _ => GFb254::lookup4_x2_nocheck((&tab[..8]).try_into().unwrap(), j),
+                };
+                out.ev(format_args!("GFb254 lookup kind{} j={:#x} -> {} {}", kind, j, hex(&r[0].encode()), hex(&r[1].encode())));
+                r254.push(r[1]);
+            }
             0..=11 => {
                 let r = match op {
                     0 => a + b,
